@@ -8,7 +8,11 @@
 //! `propose_send_max_transfer`) under generated confirmation policies, spend policies, locked-input
 //! policies and lock requests, `unlock_proposal_inputs`, `clear_locked_outputs`, and execution of earlier
 //! Sapling-only proposals with the mock provers (`create_proposed_transactions` ->
-//! `store_transactions_to_be_sent`), which leaves a pending, never-mined spender behind.
+//! `store_transactions_to_be_sent`), which leaves a pending spender behind, and `MineExecuted`: such a stored transaction
+//! (a shielding transaction whose coins were mined at different heights, some only 0-2 blocks before the shielding; a
+//! shielding of one coin; an ordinary Sapling transfer with change) is mined in a new block (`Chain::add_block_with_tx`)
+//! and scanned, so that the wallet holds notes whose receiving transaction it funded itself; `Cycle` strings receipt,
+//! shielding / transfer proposal, execution, mining, waiting and a follow-up proposal together.
 //!
 //! Oracle (safety direction): every note selected by a returned proposal is a model note of the
 //! requested account, mined in a scanned block of the current branch, not spent by a mined transaction,
@@ -54,7 +58,7 @@ use zcash_client_backend::{
             propose_send_max_transfer, propose_shielding, propose_shielding_coinbase, propose_standard_transfer_to_address, propose_transfer, unlock_proposal_inputs, ConfirmationsPolicy,
             LockRequest, SpendingKeys, TargetHeight,
         },
-        CoinbaseFilter, MaxSpendMode, OutputLockStore, SentTransaction, WalletCommitmentTrees, WalletWrite,
+        CoinbaseFilter, MaxSpendMode, OutputLockStore, SentTransaction, WalletCommitmentTrees, WalletRead, WalletWrite,
     },
     fees::{
         standard::{MultiOutputChangeStrategy, SingleOutputChangeStrategy},
@@ -122,6 +126,9 @@ enum Amount {
     Far,
     /// a canonical ZIP 318 denomination ({1,2,5}*10^k zatoshi, >= 0.01 ZEC) at or below the total, picked from the top
     Canonical(u8),
+    /// the model-spendable total PLUS this percentage of the value of the account's notes that are unspent, unlocked and
+    /// mined at or below the anchor but still inside their confirmation window (a request only those notes could cover)
+    IntoWindow(u8),
 }
 
 #[derive(Clone, Copy, Debug)]
@@ -320,6 +327,18 @@ enum XOp {
     /// build (mock provers) and STORE the transaction of an earlier, Sapling-only, single-step proposal:
     /// `create_proposed_transactions` -> `store_transactions_to_be_sent`; the transaction is never mined
     Execute { sel: u32 },
+    /// an executed (stored) transaction that was never mined is mined: `k` empty blocks, then a block holding exactly
+    /// that transaction (`Chain::add_block_with_tx`), all scanned
+    MineExecuted { sel: u32, k: u8 },
+    /// a whole wallet-funded cycle: (transparent receipts,) a shielding / Sapling-only transfer proposal, its execution,
+    /// the transaction mined `k` blocks later, `wait` more blocks, then a proposal from the same account
+    Cycle { recvs: Vec<CoinRecv>, first: CycleFirst, k: u8, wait: u8, then: ProposeSpec },
+}
+
+#[derive(Clone, Debug)]
+enum CycleFirst {
+    Shield(ShieldSpec),
+    Transfer(ProposeSpec),
 }
 
 #[derive(Clone, Debug)]
@@ -550,8 +569,80 @@ fn arb_top(na: u8) -> impl Strategy<Value = TOp> {
     ]
 }
 
+/// the proposal that closes a `Cycle`: mostly value-targeted, Sapling permitted, untrusted well above trusted, the amount
+/// reaching into the confirmation window
+fn arb_cycle_then() -> impl Strategy<Value = ProposeSpec> {
+    let amount = prop_oneof![6 => (5u8..=90).prop_map(Amount::IntoWindow), 2 => arb_amount()];
+    let addr = prop_oneof![3 => Just(AddrKind::Sapling), 2 => Just(AddrKind::P2pkh), 1 => Just(AddrKind::UaSapling), 1 => Just(AddrKind::UaFull), 1 => Just(AddrKind::Tex)];
+    let pay = (addr, 0u8..2, amount).prop_map(|(addr, rk, amount)| Pay { addr, rk, amount });
+    let kind = prop_oneof![
+        4 => (pay.clone(), any::<bool>()).prop_map(|(pay, multi)| Kind::SaplingOnly { pay, multi }),
+        3 => (pay.clone(), any::<bool>()).prop_map(|(pay, fallback_orchard)| Kind::Standard { pay, fallback_orchard }),
+        3 => (pay, prop_oneof![2 => Just(ChangeSel::Single), 1 => Just(ChangeSel::Multi { count: 2, min: 100_000 })], any::<bool>())
+            .prop_map(|(pay, change, fallback_orchard)| Kind::Transfer { pays: vec![pay], change, fallback_orchard }),
+        1 => (arb_addr_kind(), 0u8..2, any::<bool>()).prop_map(|(addr, rk, everything)| Kind::SendMax { addr, rk, everything }),
+    ];
+    (
+        kind,
+        prop_oneof![3 => Just(1u8), 2 => Just(2u8), 2 => Just(3u8), 1 => Just(5u8)],
+        prop_oneof![1 => Just(0u8), 2 => 1u8..=4, 6 => 5u8..=14],
+        prop_oneof![6 => Just(LockPol::Exclude), 1 => (1u8..8).prop_map(LockPol::PreferUnlocked), 1 => (1u8..8).prop_map(LockPol::PreferLocked)],
+        prop_oneof![5 => Just(7u8), 3 => Just(1u8), 1 => Just(3u8)],
+        prop::option::weighted(0.3, (0u8..N_OWNERS, 0u8..11)),
+    )
+        .prop_map(|(kind, trusted, untrusted_extra, lock_pol, pools_mask, lock)| ProposeSpec { kind, account: 0, trusted, untrusted_extra, lock_pol, pools_mask, lock, tsrc: None })
+}
+
+/// A shielding cycle: 1-3 coins paid to one account at DIFFERENT depths (one of them 0-2 blocks below the tip, so that
+/// it can only be shielded under zero-conf), everything funded shielded into Sapling, executed, mined `k` blocks later.
+fn arb_cycle_shield(na: u8) -> impl Strategy<Value = XOp> {
+    let how = prop_oneof![5 => Just(RecvHow::Put { known_height: true }), 3 => Just(RecvHow::Full { mined: true, expiry: ExpSel::Never }), 1 => Just(RecvHow::Full { mined: false, expiry: ExpSel::After(30) }), 1 => Just(RecvHow::Put { known_height: false })];
+    let coin = |depth: BoxedStrategy<u8>| (how.clone(), prop_oneof![4 => Just(Slot::Default), 2 => Just(Slot::Ext(1)), 1 => Just(Slot::Int(0))], 20_000u64..3_000_000, depth);
+    let old = coin(prop_oneof![3 => 3u8..12, 3 => 12u8..30].boxed());
+    let young = coin((0u8..3).boxed());
+    let third = coin((0u8..20).boxed());
+    (
+        0..na.max(1),
+        prop_oneof![5 => (old.clone(), young.clone()).prop_map(|(a, b)| vec![a, b]), 2 => (old.clone(), young.clone(), third).prop_map(|(a, b, c)| vec![a, c, b]), 2 => young.prop_map(|b| vec![b]), 1 => old.prop_map(|a| vec![a])],
+        arb_shield(),
+        (prop::bool::weighted(0.25), prop::bool::weighted(0.85)),
+        prop_oneof![4 => 0u8..3, 2 => 3u8..12],
+        prop_oneof![5 => 0u8..4, 3 => 4u8..12, 1 => 12u8..30],
+        arb_cycle_then(),
+    )
+        .prop_map(|(account, coins, mut shield, (multi, zero_conf), k, wait, then)| {
+            let recvs = coins.into_iter().map(|(how, slot, value, depth)| CoinRecv { how, account, outs: vec![(0, Some(slot), value)], depth }).collect();
+            shield.kind = ShieldKind::Shield { filter: 0, fallback_orchard: false, multi };
+            shield.account = 0;
+            shield.all_funded = true;
+            shield.from = vec![];
+            shield.threshold = Amount::Tiny(10_000);
+            shield.zero_conf = zero_conf;
+            shield.lock_pol = LockPol::Exclude;
+            XOp::Cycle { recvs, first: CycleFirst::Shield(shield), k, wait, then }
+        })
+}
+
+/// A transfer cycle: a Sapling-only transfer with change, executed, mined `k` blocks later; then a proposal.
+fn arb_cycle_transfer() -> impl Strategy<Value = XOp> {
+    (
+        arb_propose(),
+        (0u8..2, prop_oneof![Just(AddrKind::Sapling), Just(AddrKind::P2pkh), Just(AddrKind::UaSapling), Just(AddrKind::OwnUa)], prop_oneof![3 => (1u8..80).prop_map(Amount::Pct), 1 => Just(Amount::Tiny(10_000))], any::<bool>()),
+        prop_oneof![4 => 0u8..3, 2 => 3u8..12],
+        prop_oneof![5 => 0u8..4, 3 => 4u8..12, 1 => 12u8..30],
+        arb_cycle_then(),
+    )
+        .prop_map(|(mut first, (rk, addr, amount, multi), k, wait, then)| {
+            first.kind = Kind::SaplingOnly { pay: Pay { addr, rk, amount }, multi };
+            XOp::Cycle { recvs: vec![], first: CycleFirst::Transfer(first), k, wait, then }
+        })
+}
+
 fn arb_xop_t(na: u8, nf: u8, iw: bool) -> impl Strategy<Value = XOp> {
     prop_oneof![
+        4 => arb_cycle_shield(na),
+        1 => arb_cycle_transfer(),
+        3 => (any::<u32>(), prop_oneof![3 => 0u8..3, 2 => 3u8..12]).prop_map(|(sel, k)| XOp::MineExecuted { sel, k }),
         21 => arb_top(na).prop_map(XOp::T),
         5 => arb_propose_t().prop_map(XOp::Propose),
         2 => arb_propose().prop_map(XOp::Propose),
@@ -579,6 +670,8 @@ fn arb_c08_case_t(max_base_ops: usize, p_long: u32) -> impl Strategy<Value = C08
 
 fn arb_xop(na: u8, nf: u8, iw: bool) -> impl Strategy<Value = XOp> {
     prop_oneof![
+        2 => arb_cycle_transfer(),
+        2 => (any::<u32>(), prop_oneof![3 => 0u8..3, 2 => 3u8..12]).prop_map(|(sel, k)| XOp::MineExecuted { sel, k }),
         14 => arb_propose().prop_map(XOp::Propose),
         3 => prop_oneof![6 => 1u8..=12, 1 => 30u8..=45].prop_map(|n| XOp::Advance { n }),
         2 => arb_block(na, nf, iw, 2, 3).prop_map(XOp::Receive),
@@ -637,6 +730,27 @@ struct Stored {
     coins: Vec<CoinKey>,
     account: u8,
     executed: bool,
+}
+
+/// A transaction the wallet created and stored (`Execute`), and where it was mined, if it was.
+struct ExecTx {
+    tx: Transaction,
+    /// expiry height as read back from the wallet
+    expiry: u32,
+    /// the spender record in the coin model when the transaction spends coins
+    ttx: Option<usize>,
+    coins: Vec<CoinKey>,
+    /// a `propose_shielding*` transaction (every input transparent, every output the wallet's own)
+    shielding: bool,
+    /// (anchor height, id of the chain block at that height when the transaction was built), for shielded inputs
+    anchor: Option<(u32, usize)>,
+    /// (chain block id, height) once `MineExecuted` has put it into a block (at most once)
+    mined_block: Option<(usize, u32)>,
+    /// a compact-block scan shows the wallet that this transaction is mined: it spends shielded notes of the wallet or has
+    /// a (change) output to the wallet. The scanner records a transaction only when it detects such a part; a
+    /// transparent-to-foreign-recipient transaction (`propose_shielding_coinbase` to somebody else) is learnt mined only
+    /// through `set_transaction_status`, which no operation here calls.
+    detectable: bool,
 }
 
 /// A transaction of the transparent model: one that creates coins, spends coins, or both.
@@ -789,6 +903,29 @@ struct Stats {
     t_err_insufficient: u64,
     t_err_other: u64,
     t_executed: u64,
+    // --- mined wallet-created transactions ---
+    mine_attempts: u64,
+    mine_skipped: u64,
+    mine_skipped_undetectable: u64,
+    mine_refused_by_chain: u64,
+    exec_mined: u64,
+    exec_mined_shielding: u64,
+    exec_mined_transfer: u64,
+    shield_note_mined: u64,
+    change_note_mined: u64,
+    shield_inputs_diff_heights: u64,
+    shield_single_coin_mined: u64,
+    shield_zero_conf_input: u64,
+    coins_remined_for_mining: u64,
+    shield_note_in_window: u64,
+    shield_note_in_window_needed: u64,
+    shield_note_spendable: u64,
+    selected_shield_note: u64,
+    selected_mined_change_note: u64,
+    selected_shield_note_weaker_reading: u64,
+    window_amounts: u64,
+    cycles: u64,
+    cycles_mined: u64,
 }
 
 struct Model {
@@ -810,6 +947,11 @@ struct Model {
     /// counter behind made-up txids / lock times
     salt: u32,
     seed: [u8; 32],
+    /// executed (stored) wallet transactions
+    exec: Vec<ExecTx>,
+    exec_by_txid: BTreeMap<[u8; 32], usize>,
+    /// set by `Cycle`: the next proposal addresses this account instead of a rank
+    prefer_account: Option<u8>,
 }
 
 impl Model {
@@ -832,6 +974,19 @@ impl Model {
             tlocks: BTreeMap::new(),
             salt: 0,
             seed,
+            exec: vec![],
+            exec_by_txid: BTreeMap::new(),
+            prefer_account: None,
+        }
+    }
+
+    /// The coin model learns whether each mined wallet-created transaction is mined as far as the wallet knows: it is
+    /// while the block that holds it is scanned (a rewind below it un-mines it, a re-scan of the same block mines it again).
+    fn sync_exec(&mut self, h: &Hist) {
+        for e in &self.exec {
+            if let (Some(tix), Some((bid, height))) = (e.ttx, e.mined_block) {
+                self.ttxs[tix].mined = h.ledger.scanned.contains(&bid).then_some(height);
+            }
         }
     }
 
@@ -936,6 +1091,13 @@ struct NoteState {
     /// spent by a stored (pending) wallet transaction that is unexpired at the target height
     pending: bool,
     ever_pending: bool,
+    /// the note is an internal-scope output of a wallet-created transaction that spends wallet coins: the documented
+    /// shielding rule (`max_shielding_input_height`) decides its confirmations
+    shield_rule: bool,
+    /// an internal-scope output (change) of a wallet-created transfer without transparent inputs
+    exec_change: bool,
+    /// mined at or below the anchor of a proposal under this policy (mined_height + trusted <= target)
+    anchored: bool,
 }
 
 fn tx_spends_wallet_note(chain: &Chain, n: &NoteRec) -> bool {
@@ -951,11 +1113,16 @@ fn note_state(h: &Hist, m: &Model, nid: usize, target: u32, pol: &Pol) -> NoteSt
     let mut spent_mined = false;
     let mut spent_pending = false;
     let mut any_link = false;
-    for (nn, sb, _) in ledger.links.range((nid, 0, [0u8; 32])..=(nid, usize::MAX, [0xff; 32])) {
+    for (nn, sb, stx) in ledger.links.range((nid, 0, [0u8; 32])..=(nid, usize::MAX, [0xff; 32])) {
         debug_assert_eq!(*nn, nid);
         any_link = true;
         if ledger.scanned.contains(sb) {
             spent_mined = true;
+        } else if let Some(e) = m.exec_by_txid.get(stx).map(|i| &m.exec[*i]) {
+            // an un-mined spender the wallet created itself: its expiry height is known (documented tx_unexpired_condition)
+            if e.expiry == 0 || e.expiry >= target {
+                spent_pending = true;
+            }
         } else if unexpired(*sb) {
             spent_pending = true;
         }
@@ -963,15 +1130,46 @@ fn note_state(h: &Hist, m: &Model, nid: usize, target: u32, pol: &Pol) -> NoteSt
     let internal = matches!(n.scope, ScopeSel::Internal);
     let deep = |req: u32| n.height + req <= target;
     let key = (n.pool, n.txid, n.out_index);
+    let mut conf_doc = deep(if internal { pol.trusted } else { pol.untrusted });
+    let mut conf_weak = deep(if internal || tx_spends_wallet_note(chain, n) { pol.trusted } else { pol.untrusted });
+    let mut conf_max = deep(pol.untrusted);
+    let exec = m.exec_by_txid.get(&n.txid).map(|i| &m.exec[*i]);
+    let shield_rule = internal && exec.map_or(false, |e| !e.coins.is_empty());
+    if let (true, Some(e)) = (shield_rule, exec) {
+        // `ConfirmationsPolicy::confirmations_until_spendable`: "If the note was the output of a shielding transaction, we
+        // use the mined height of the transparent source funds & their trust status instead of the height at which the
+        // shielding transaction was mined"; `max_shielding_input_height` = "the maximum height at which any transparent
+        // input to that transaction was received"; no transaction is ever marked trusted here, so the inputs need the
+        // UNTRUSTED depth: max input height + untrusted <= target.
+        let heights = |own_only: bool| -> Vec<Option<u32>> {
+            e.coins.iter().filter_map(|k| m.coin_index.get(k)).map(|ci| &m.coins[*ci]).filter(|c| !own_only || Who::Wallet(c.account) == n.who).map(|c| m.ttxs[c.tx].mined).collect()
+        };
+        // strict reading: every transparent input of the wallet counts, one of unknown height is unconfirmed, and the
+        // note's own transaction has the trusted depth as well
+        let all = heights(false);
+        conf_doc = deep(pol.trusted) && all.iter().all(|hh| hh.map_or(false, |hh| hh + pol.untrusted <= target));
+        conf_max = conf_doc && deep(pol.untrusted);
+        // weakest reading (asserted): only inputs of the note's own account whose mined height the wallet knows count;
+        // without any, the note is an ordinary wallet-internal output (trusted depth of its own transaction); a
+        // transfer that merely ADDS coins to shielded inputs is not "a shielding transaction" under this reading
+        let own_max = heights(true).into_iter().flatten().max();
+        conf_weak = match (e.shielding, own_max) {
+            (true, Some(hh)) => hh + pol.untrusted <= target,
+            _ => deep(pol.trusted),
+        };
+    }
     NoteState {
         known: ledger.known_notes.contains(&nid),
         mined: ledger.scanned.contains(&n.block_id),
         spent_mined,
         spent_pending,
         any_link,
-        conf_doc: deep(if internal { pol.trusted } else { pol.untrusted }),
-        conf_weak: deep(if internal || tx_spends_wallet_note(chain, n) { pol.trusted } else { pol.untrusted }),
-        conf_max: deep(pol.untrusted),
+        conf_doc,
+        conf_weak,
+        conf_max,
+        shield_rule,
+        exec_change: internal && exec.map_or(false, |e| e.coins.is_empty()),
+        anchored: deep(pol.trusted),
         lock: m.locks.get(&key).copied().filter(|(_, exp)| *exp >= target),
         pool_ok: pol.pools_mask & (1 << (n.pool as u8)) != 0,
         pending: m.pending.get(&key).map_or(false, |v| v.iter().any(|exp| *exp == 0 || *exp >= target)),
@@ -1139,6 +1337,8 @@ fn resolve_amount(a: Amount, total: u64) -> u64 {
         Amount::TotalMinus(k) => total.saturating_sub(k),
         Amount::TotalPlus(k) => total.saturating_add(k),
         Amount::Far => total.saturating_mul(3).saturating_add(1_000_000),
+        // without a view of the window (thresholds, crossings): the total itself
+        Amount::IntoWindow(_) => total,
         Amount::Canonical(i) => {
             let all = canonical_denominations();
             let fit: Vec<u64> = all.iter().copied().filter(|d| *d <= total.saturating_sub(10_000)).collect();
@@ -1486,6 +1686,7 @@ const SIG_HAVE_GE_NEED: &str = "insufficient-funds-reports-available-at-least-re
 #[allow(clippy::too_many_arguments)]
 fn do_propose(ctx: &Ctx, h: &mut Hist, m: &mut Model, st: &mut Stats, spec: &ProposeSpec, step: &str) -> Result<(), Fail> {
     m.refresh(&h.chain);
+    m.sync_exec(h);
     let Some(wtip) = h.w.chain_height() else { return Ok(()) };
     if wtip != h.chain.tip_height() {
         // cannot happen after ensure_tip_known; never judge a proposal against a different tip
@@ -1534,7 +1735,10 @@ fn do_propose(ctx: &Ctx, h: &mut Hist, m: &mut Model, st: &mut Stats, spec: &Pro
             })
             .collect();
         ranked.sort_by(|x, y| y.0.cmp(&x.0).then(x.1.cmp(&y.1)));
-        ranked[(spec.account as usize).min(ranked.len() - 1)].1
+        match m.prefer_account {
+            Some(a) if (a as usize) < h.world.accounts.len() => a,
+            _ => ranked[(spec.account as usize).min(ranked.len() - 1)].1,
+        }
     };
     let acct_id = h.w.accounts[account as usize];
 
@@ -1548,6 +1752,9 @@ fn do_propose(ctx: &Ctx, h: &mut Hist, m: &mut Model, st: &mut Stats, spec: &Pro
     let mut conservative = 0u64;
     let mut documented = 0u64;
     let mut dust_candidates = 0u32;
+    // value of notes that only their confirmation window keeps from being selected
+    let mut window = 0u64;
+    let (mut shield_in_window, mut shield_spendable) = (false, false);
     let (mut n_live, mut n_underconf, mut n_locked_out, mut n_spent, mut n_orphan, mut n_pending, mut n_wallet_pending) = (0, 0, 0, 0, 0, 0, 0);
     for (nid, s) in &states {
         let v = h.chain.notes[*nid].value;
@@ -1577,6 +1784,14 @@ fn do_propose(ctx: &Ctx, h: &mut Hist, m: &mut Model, st: &mut Stats, spec: &Pro
             if v <= MARGINAL_FEE {
                 dust_candidates += 1;
             }
+            if s.pool_ok && !s.conf_doc && s.anchored && !locked_out(s) && v > MARGINAL_FEE {
+                window = window.saturating_add(v);
+            }
+            if s.shield_rule && s.pool_ok && !locked_out(s) && v > MARGINAL_FEE {
+                // a shielding output under the anchor that the documented rule (weakest reading) still withholds
+                shield_in_window |= s.anchored && !s.conf_weak;
+                shield_spendable |= s.anchored && s.conf_doc;
+            }
             if s.pool_ok && s.conf_doc && !locked_out(s) && v > MARGINAL_FEE {
                 basis = basis.saturating_add(v);
                 documented = documented.saturating_add(v);
@@ -1597,6 +1812,15 @@ fn do_propose(ctx: &Ctx, h: &mut Hist, m: &mut Model, st: &mut Stats, spec: &Pro
     }
     let gaps_exist = !gaps(&h.chain, &h.ledger).is_empty();
     st.attempts += 1;
+    st.shield_note_in_window += shield_in_window as u64;
+    let window_amount = match &spec.kind {
+        Kind::Transfer { pays, .. } => pays.iter().any(|p| matches!(p.amount, Amount::IntoWindow(_))),
+        Kind::Standard { pay, .. } | Kind::SaplingOnly { pay, .. } => matches!(pay.amount, Amount::IntoWindow(_)),
+        _ => false,
+    };
+    st.window_amounts += (window_amount && window > 0) as u64;
+    st.shield_note_in_window_needed += (window_amount && shield_in_window) as u64;
+    st.shield_note_spendable += shield_spendable as u64;
     st.under_confirmed += (n_underconf > 0) as u64;
     st.locked_exclusion += (n_locked_out > 0) as u64;
     st.spent_candidate += (n_spent > 0) as u64;
@@ -1639,7 +1863,10 @@ fn do_propose(ctx: &Ctx, h: &mut Hist, m: &mut Model, st: &mut Stats, spec: &Pro
         let mut out = vec![];
         for p in pays {
             let addr = build_address(h, m, p.addr, p.rk, account)?;
-            let amt = resolve_amount(p.amount, remaining);
+            let amt = match p.amount {
+                Amount::IntoWindow(pct) => remaining.saturating_add((window as u128 * pct as u128 / 100) as u64).clamp(1, MAX_MONEY),
+                a => resolve_amount(a, remaining),
+            };
             remaining = remaining.saturating_sub(amt);
             out.push((addr, amt));
         }
@@ -1991,7 +2218,29 @@ fn check_proposal(
                 );
                 // (iii)
                 let stabilized = witness_stabilized(h, &key);
-                if !stabilized {
+                if s0.shield_rule {
+                    st.selected_shield_note += 1;
+                }
+                if s0.exec_change {
+                    st.selected_mined_change_note += 1;
+                }
+                if !stabilized && s0.shield_rule {
+                    let e = &m.exec[m.exec_by_txid[&n.txid]];
+                    let inputs: Vec<(u8, Option<u32>)> = e.coins.iter().filter_map(|k| m.coin_index.get(k)).map(|ci| (m.coins[*ci].account, m.ttxs[m.coins[*ci].tx].mined)).collect();
+                    vensure!(
+                        s0.conf_weak,
+                        "selected-underconfirmed-shielded-note",
+                        "{step}: selected note {desc} (account {account}, mined at {}, scope {:?}) is an output of the wallet's own shielding transaction whose transparent inputs (account, mined height) are {inputs:?}; under policy trusted {} / untrusted {} at target {target} the documented rule (confirmations_until_spendable: the NEWEST transparent input's mined height, untrusted depth because no input transaction is marked trusted) needs max input height + {} <= {target}",
+                        n.height,
+                        n.scope,
+                        pol.trusted,
+                        pol.untrusted,
+                        pol.untrusted
+                    );
+                    if !s0.conf_doc {
+                        st.selected_shield_note_weaker_reading += 1;
+                    }
+                } else if !stabilized {
                     vensure!(
                         s0.conf_weak,
                         "selected-underconfirmed-note",
@@ -2333,9 +2582,11 @@ fn do_execute(h: &mut Hist, m: &mut Model, st: &mut Stats, k: usize, step: &str)
                 m.locks.remove(&key);
             }
             // the stored transaction also spends the proposal's coins
+            let mut spender_ix = None;
             if !m.stored[k].coins.is_empty() {
                 st.t_executed += 1;
                 let tix = m.ttxs.len();
+                spender_ix = Some(tix);
                 m.ttxs.push(TTx { txid: *txid.as_ref(), tx: None, mined: None, expiry: Some(expiry), first_observed: wtip.unwrap_or(target), coinbase: false, rewound: false });
                 for key in m.stored[k].coins.clone() {
                     if let Some(ci) = m.coin_index.get(&key).copied() {
@@ -2344,6 +2595,23 @@ fn do_execute(h: &mut Hist, m: &mut Model, st: &mut Stats, k: usize, step: &str)
                     m.tlocks.remove(&key);
                 }
             }
+            // keep the transaction itself (as the wallet stored it) so that it can be mined later
+            let txid_bytes: [u8; 32] = *txid.as_ref();
+            let raw = h.w.db().get_transaction(*txid).map_err(|e| Fail::new("stored-tx-missing", format!("{step}: get_transaction({txid:?}) failed: {e:?}")))?;
+            let Some(raw) = raw else { vfail!("stored-tx-missing", "{step}: get_transaction({txid:?}) returns None right after store_transactions_to_be_sent") };
+            let (shielding, anchor) = match &m.stored[k].proposal {
+                AnyProp::Shield(_) => (true, None),
+                AnyProp::Transfer(p) => (false, p.steps().first().anchor_height().filter(|_| p.steps().first().shielded_inputs().is_some()).map(u32::from)),
+            };
+            let anchor = anchor.map(|a| (a, h.chain.block_at(a).map_or(usize::MAX, |b| b.id)));
+            let has_shielded_change = |c: &[zcash_client_backend::fees::ChangeValue]| c.iter().any(|c| matches!(c.output_pool(), PoolType::Shielded(_)));
+            let detectable = !m.stored[k].keys.is_empty()
+                || match &m.stored[k].proposal {
+                    AnyProp::Shield(p) => has_shielded_change(p.steps().first().balance().proposed_change()),
+                    AnyProp::Transfer(p) => has_shielded_change(p.steps().first().balance().proposed_change()),
+                };
+            m.exec_by_txid.insert(txid_bytes, m.exec.len());
+            m.exec.push(ExecTx { tx: raw, expiry, ttx: spender_ix, coins: m.stored[k].coins.clone(), shielding, anchor, mined_block: None, detectable });
         }
     }
     m.refresh(&h.chain);
@@ -2458,6 +2726,7 @@ fn do_coin_recv(h: &mut Hist, m: &mut Model, st: &mut Stats, r: &CoinRecv, step:
 
 /// A transaction spending one or two of the wallet's coins is mined, seen in the mempool, or stored as sent by the wallet.
 fn do_coin_spend(h: &mut Hist, m: &mut Model, st: &mut Stats, sp: &CoinSpend, step: &str) -> Result<(), Fail> {
+    m.sync_exec(h);
     let Some(tip) = h.w.chain_height() else { return Ok(()) };
     let base = h.base();
     if tip <= base {
@@ -2549,7 +2818,6 @@ fn do_coin_remine(h: &mut Hist, m: &mut Model, st: &mut Stats, sel: u32, depth: 
     if tip <= base {
         return Ok(());
     }
-    let net = h.world.net;
     let creators: BTreeSet<usize> = m.coins.iter().map(|c| c.tx).collect();
     let cands: Vec<usize> = creators.into_iter().filter(|t| m.ttxs[*t].mined.is_none() && !m.ttxs[*t].coinbase).collect();
     if cands.is_empty() {
@@ -2557,6 +2825,13 @@ fn do_coin_remine(h: &mut Hist, m: &mut Model, st: &mut Stats, sel: u32, depth: 
     }
     let tix = cands[vcore::pick_index(sel, cands.len())];
     let height = tip.saturating_sub(depth as u32).max(base + 1);
+    announce_coin_tx_mined(h, m, st, tix, height, step).map(|_| ())
+}
+
+/// The wallet is told (the way it learnt of the coins: full transaction or `put_received_transparent_utxo`) that the
+/// transaction `tix` of the coin model is mined at `height`. `Ok(false)`: the wallet rejected it (counted).
+fn announce_coin_tx_mined(h: &mut Hist, m: &mut Model, st: &mut Stats, tix: usize, height: u32, step: &str) -> Result<bool, Fail> {
+    let net = h.world.net;
     let res = match m.ttxs[tix].tx.clone() {
         Some(tx) => vcore::catch(|| decrypt_and_store_transaction(&net, h.w.db(), &tx, Some(BlockHeight::from_u32(height))).map_err(|e| format!("{e:?}"))),
         None => {
@@ -2581,15 +2856,108 @@ fn do_coin_remine(h: &mut Hist, m: &mut Model, st: &mut Stats, sel: u32, depth: 
     };
     match res {
         Err(p) => vfail!(format!("remine-panic:{}", vcore::panic_site(&p)), "{step}: re-announcing a coin panicked: {p}"),
-        Ok(Err(e)) => note_rejected(st, "remine", &e),
+        Ok(Err(e)) => {
+            note_rejected(st, "remine", &e);
+            Ok(false)
+        }
         Ok(Ok(())) => {
             st.coin_remines += 1;
             let t = &mut m.ttxs[tix];
             t.mined = Some(height);
             t.first_observed = t.first_observed.min(height);
+            Ok(true)
         }
     }
-    Ok(())
+}
+
+/// `MineExecuted`: an executed (stored, never mined) transaction is mined in a new block `k` blocks above the tip and
+/// scanned. `Ok(true)` when a block holding it was added.
+fn do_mine_executed(h: &mut Hist, m: &mut Model, st: &mut Stats, ei: usize, k: u8, full_scan: Option<u16>, step: &str) -> Result<bool, Fail> {
+    m.sync_exec(h);
+    st.mine_attempts += 1;
+    let Some(tip) = h.w.chain_height() else { return Ok(false) };
+    if tip != h.chain.tip_height() || tip <= h.base() || m.exec[ei].mined_block.is_some() {
+        st.mine_skipped += 1;
+        return Ok(false);
+    }
+    let height = tip + k as u32 + 1;
+    let e = &m.exec[ei];
+    if !e.detectable {
+        // scanning the block would not tell the wallet anything about this transaction
+        st.mine_skipped_undetectable += 1;
+        return Ok(false);
+    }
+    // consensus: not expired at the block that mines it; its anchor is a block of this branch
+    let expiry_ok = e.expiry == 0 || e.expiry >= height;
+    let anchor_ok = e.anchor.map_or(true, |(a, bid)| h.chain.block_at(a).map_or(usize::MAX, |b| b.id) == bid && (bid != usize::MAX || a == h.base()));
+    // its coins: none spent by another mined transaction; each mined (as far as the wallet knows) or announceable as mined now
+    let mut to_announce: Vec<usize> = vec![];
+    let mut coins_ok = true;
+    for key in &e.coins {
+        let Some(ci) = m.coin_index.get(key).copied() else {
+            coins_ok = false;
+            break;
+        };
+        let c = &m.coins[ci];
+        if c.spenders.iter().any(|s| Some(*s) != e.ttx && m.ttxs[*s].mined.is_some()) {
+            coins_ok = false;
+        }
+        let t = &m.ttxs[c.tx];
+        if t.mined.is_none() {
+            // a coinbase transaction never returns to the chain; an expired transaction cannot be mined any more
+            if t.coinbase || !t.expiry.map_or(true, |x| x == 0 || x >= tip) {
+                coins_ok = false;
+            } else if !to_announce.contains(&c.tx) {
+                to_announce.push(c.tx);
+            }
+        } else if t.coinbase && t.mined.map_or(true, |hh| height < hh + COINBASE_MATURITY) {
+            coins_ok = false;
+        }
+    }
+    if !expiry_ok || !anchor_ok || !coins_ok {
+        st.mine_skipped += 1;
+        return Ok(false);
+    }
+    // the un-mined funding transactions are mined first (in the tip block, as far as the wallet is told)
+    for tix in to_announce {
+        if !announce_coin_tx_mined(h, m, st, tix, tip, step)? {
+            st.mine_skipped += 1;
+            return Ok(false);
+        }
+        st.coins_remined_for_mining += 1;
+    }
+    let from = h.chain.tip_height() + 1;
+    if k > 0 {
+        h.apply(&Op::AddEmpty(k as u16), step)?;
+    }
+    let tx = m.exec[ei].tx.clone();
+    let mined = h.chain.add_block_with_tx(&h.world, &tx);
+    sync(h, full_scan, from, step)?;
+    let Some(mt) = mined else {
+        // a note it spends is no longer spendable on this branch (spent by a mined transaction, or reorganised away)
+        st.mine_refused_by_chain += 1;
+        return Ok(false);
+    };
+    debug_assert_eq!(mt.height, height);
+    m.exec[ei].mined_block = Some((mt.block_id, mt.height));
+    m.refresh(&h.chain);
+    m.sync_exec(h);
+    st.exec_mined += 1;
+    let e = &m.exec[ei];
+    let internal_notes = mt.notes.iter().filter(|n| matches!(h.chain.notes[**n].scope, ScopeSel::Internal)).count() as u64;
+    if e.coins.is_empty() {
+        st.exec_mined_transfer += 1;
+        st.change_note_mined += (internal_notes > 0) as u64;
+    } else {
+        st.exec_mined_shielding += e.shielding as u64;
+        st.shield_note_mined += (internal_notes > 0) as u64;
+        let hs: BTreeSet<u32> = e.coins.iter().filter_map(|k| m.coin_index.get(k)).filter_map(|ci| m.ttxs[m.coins[*ci].tx].mined).collect();
+        st.shield_inputs_diff_heights += (hs.len() >= 2) as u64;
+        st.shield_single_coin_mined += (e.coins.len() == 1) as u64;
+        // an input that had at most two blocks on top of it when the shielding transaction was mined
+        st.shield_zero_conf_input += hs.iter().any(|hh| *hh + 2 >= tip) as u64;
+    }
+    Ok(true)
 }
 
 fn resolve_threshold(a: Amount, total: u64) -> u64 {
@@ -2602,6 +2970,7 @@ fn resolve_threshold(a: Amount, total: u64) -> u64 {
 /// `propose_shielding` / `propose_shielding_coinbase`, judged against the coin model.
 fn do_shield(ctx: &Ctx, h: &mut Hist, m: &mut Model, st: &mut Stats, spec: &ShieldSpec, step: &str) -> Result<(), Fail> {
     m.refresh(&h.chain);
+    m.sync_exec(h);
     let Some(wtip) = h.w.chain_height() else { return Ok(()) };
     if wtip != h.chain.tip_height() {
         return Ok(());
@@ -2915,7 +3284,63 @@ fn run_case(ctx: &Ctx, case: &C08Case) -> CaseResult {
                 s
             }
         };
+        m.sync_exec(&h);
         match x {
+            XOp::MineExecuted { sel, k } => {
+                let cands: Vec<usize> = (0..m.exec.len()).filter(|i| m.exec[*i].mined_block.is_none()).collect();
+                if cands.is_empty() {
+                    continue;
+                }
+                if h.chain.tip_height() > h.base() {
+                    h.ensure_tip_known(&step)?;
+                }
+                let ei = cands[vcore::pick_index(*sel, cands.len())];
+                let r = do_mine_executed(&mut h, &mut m, &mut st, ei, *k, case.full_scan, &step).map(|_| ());
+                if !guard(&h, r)? {
+                    return excluded(&h);
+                }
+                compare_lock_tables(&mut h, &m, &mut st, &step)?;
+            }
+            XOp::Cycle { recvs, first, k, wait, then } => {
+                if h.chain.tip_height() == h.base() {
+                    continue;
+                }
+                h.ensure_tip_known(&step)?;
+                st.cycles += 1;
+                for r in recvs {
+                    do_coin_recv(&mut h, &mut m, &mut st, r, &step)?;
+                }
+                let before = m.stored.len();
+                match first {
+                    CycleFirst::Shield(spec) => do_shield(ctx, &mut h, &mut m, &mut st, spec, &step)?,
+                    CycleFirst::Transfer(spec) => do_propose(ctx, &mut h, &mut m, &mut st, spec, &step)?,
+                }
+                let mut cycle_account = None;
+                if m.stored.len() > before && executable(&m.stored[before]) {
+                    let n_exec = m.exec.len();
+                    do_execute(&mut h, &mut m, &mut st, before, &step)?;
+                    if m.exec.len() > n_exec {
+                        cycle_account = Some(m.stored[before].account);
+                        let r = do_mine_executed(&mut h, &mut m, &mut st, n_exec, *k, case.full_scan, &step);
+                        st.cycles_mined += matches!(r, Ok(true)) as u64;
+                        if !guard(&h, r.map(|_| ()))? {
+                            return excluded(&h);
+                        }
+                    }
+                }
+                if *wait > 0 {
+                    let from = h.chain.tip_height() + 1;
+                    let r = h.apply(&Op::AddEmpty(*wait as u16), &step).and_then(|_| sync(&mut h, case.full_scan, from, &step));
+                    if !guard(&h, r)? {
+                        return excluded(&h);
+                    }
+                }
+                h.ensure_tip_known(&step)?;
+                m.prefer_account = cycle_account;
+                let r = do_propose(ctx, &mut h, &mut m, &mut st, then, &step);
+                m.prefer_account = None;
+                r?;
+            }
             XOp::T(top) => {
                 if h.chain.tip_height() > h.base() {
                     h.ensure_tip_known(&step)?;
@@ -3155,6 +3580,38 @@ fn run_case(ctx: &Ctx, case: &C08Case) -> CaseResult {
         .label_if(st.known_orphaned_coinbase > 0, "known:selected-orphaned-coinbase-coin")
         .label_if(st.obs_other_account_coin_selected > 0, "observation:shielding-selected-requested-coin-of-other-account")
         .label_if(st.obs_shield_insufficient_despite_spendable > 0, "observation:shielding-insufficient-despite-spendable-coins")
+        // --- mined wallet-created transactions: generator/model side ---
+        .label_if(st.exec_mined > 0, "executed-tx-mined")
+        .label_if(st.exec_mined_shielding > 0, "executed-shielding-tx-mined")
+        .label_if(st.exec_mined_transfer > 0, "executed-sapling-transfer-mined")
+        .label_if(st.shield_note_mined > 0, "shielding-output-note-mined")
+        .label_if(st.change_note_mined > 0, "change-note-of-wallet-transfer-mined")
+        .label_if(st.shield_inputs_diff_heights > 0, "shielding-inputs-at-different-heights")
+        .label_if(st.shield_single_coin_mined > 0, "shielding-tx-with-one-coin-mined")
+        .label_if(st.shield_zero_conf_input > 0, "shielding-input-received-0-2-blocks-before-shielding")
+        .label_if(st.coins_remined_for_mining > 0, "unmined-coin-mined-just-before-its-shielding-tx")
+        .label_if(st.shield_note_in_window > 0, "shielding-output-inside-confirmation-window-at-proposal")
+        .label_if(st.shield_note_in_window_needed > 0, "request-needs-shielding-output-inside-window")
+        .label_if(st.shield_note_spendable > 0, "shielding-output-past-confirmation-window-at-proposal")
+        .label_if(st.window_amounts > 0, "request-reaching-into-confirmation-window")
+        .label_if(st.mine_refused_by_chain > 0, "executed-tx-not-minable-on-branch")
+        // --- mined wallet-created transactions: outcomes ---
+        .label_if(st.selected_shield_note > 0, "selected-shielding-output-note")
+        .label_if(st.selected_mined_change_note > 0, "selected-mined-change-note-of-wallet-transfer")
+        .label_if(st.selected_shield_note_weaker_reading > 0, "selected-shielding-output-under-weaker-reading-only")
+        .count("executed-txs-mined", st.exec_mined)
+        .count("executed-shielding-txs-mined", st.exec_mined_shielding)
+        .count("mine-attempts", st.mine_attempts)
+        .count("mine-skipped", st.mine_skipped)
+        .count("mine-skipped:tx-without-wallet-detectable-shielded-part", st.mine_skipped_undetectable)
+        .count("mine-refused-by-chain", st.mine_refused_by_chain)
+        .count("cycles", st.cycles)
+        .count("cycles-mined", st.cycles_mined)
+        .count("attempts-with-shielding-output-in-window", st.shield_note_in_window)
+        .count("attempts-needing-shielding-output-in-window", st.shield_note_in_window_needed)
+        .count("selected-shielding-output-notes", st.selected_shield_note)
+        .count("selected-mined-change-notes", st.selected_mined_change_note)
+        .count("selected-shielding-output-under-weaker-reading-only", st.selected_shield_note_weaker_reading)
         .count("coins-received", st.coins_received)
         .count("coin-spends", st.coin_spends)
         .count("coin-reorgs", st.coin_reorgs)
@@ -3326,7 +3783,9 @@ fn main() {
          of selectable value), Advance(1-12 or 30-45 empty blocks, scanned), Receive(a generated block, scanned), rewind / gap scan, SpendThenReorg (a block spending a wallet note is scanned and then reorganised away), unlock_proposal_inputs \
          of an earlier proposal under any owner, clear_locked_outputs, Execute (create_proposed_transactions with the mock Sapling provers for an earlier \
          single-step Sapling-only proposal: the transaction is STORED via store_transactions_to_be_sent and never mined, so its inputs are spent by a pending \
-         transaction until its expiry height). Every returned proposal is checked note by note against the model ledger and \
+         transaction until its expiry height), MineExecuted (an executed, never-mined transaction is mined k = 0-11 blocks above the tip in a block of its own, converted to a CompactTx like a \
+         light-client server would, and scanned: its inputs are now spent by a mined transaction, its change notes are mined wallet notes at the TRUSTED depth), Cycle (a Sapling-only transfer with change -> Execute -> MineExecuted(k) -> \
+         0-29 blocks -> a proposal from the same account whose amount reaches INTO the confirmation window: model-selectable total + 5-90 % of the value of anchored but under-confirmed notes). Every returned proposal is checked note by note against the model ledger and \
          the model lock table; the wallet's get_locked_outputs is compared with the model lock table after every op. Non-trivial = history with a \
          proposal attempt against an account holding >= 2 unspent mined notes while >= 1 note of the account is ineligible (spent, spent by an \
          unexpired orphaned tx, spent by a stored pending tx, orphaned, under-confirmed, locked by a non-admitted owner) or the wallet has unscanned gaps; distinct = hash of the case. \
@@ -3341,11 +3800,16 @@ fn main() {
          never-funded address, nobody's address; ConfirmationsPolicy trusted 1-10, untrusted = trusted+0..10, allow_zero_conf_shielding in 45 %; selector-level LockedInputPolicy; lock request \
          in 60 %; propose_shielding_coinbase to Sapling / unified / own / transparent (inadmissible) recipients with limit None / 0-3), propose_transfer kinds whose SpendPolicy carries a \
          TransparentSpendPolicy (any_account_addr or from_addresses, non-coinbase or only-coinbase) with 0-3 shielded pools permitted, plus the shielded ops above; Execute also builds \
-         shielding / transparent-input proposals. Non-trivial there = a transparent proposal attempt naming >= 2 coins without mined spender of which >= 1 is ineligible (under-confirmed, un-mined, \
+         shielding / transparent-input proposals; MineExecuted mines them (un-mined funding coins are announced as mined in the tip block first); shielding Cycle: 1-3 coins of one account received at DIFFERENT \
+         depths (one 3-29 blocks deep, one 0-2 blocks deep, i.e. shieldable only under zero-conf; or a single coin) -> propose_shielding of everything funded into Sapling (zero-conf in 85 %) -> Execute -> MineExecuted(k) -> 0-29 blocks -> \
+         a value-targeted (or, rarely, send-max) proposal from the shielding account under trusted 1-5 / untrusted = trusted + 0..14 whose amount reaches into the confirmation window, so that the shielded note is needed while the \
+         documented rule (newest transparent input + untrusted depth) still withholds it. Non-trivial there = a transparent proposal attempt naming >= 2 coins without mined spender of which >= 1 is ineligible (under-confirmed, un-mined, \
          locked by a non-admitted owner, spent by a pending or mined transaction, immature coinbase).",
     );
     ctx.assume("model ledger = chainsim::Ledger (validated against the wallet's balances and note rows by C01); un-mined tx with unknown expiry counts as unexpired while first-observed height + 40 >= target (documented tx_unexpired_condition)");
     ctx.assume("confirmations: a note needs mined_height + required <= target (= wallet chain tip + 1); required = trusted for internal-scope notes, untrusted otherwise (no transaction is ever marked trusted by the user). Latitude: an external-scope note of a transaction that also spends a wallet note is only required to have the trusted depth (counted separately)");
+    ctx.assume("notes of wallet-funded transactions (ConfirmationsPolicy::confirmations_until_spendable rustdoc): an internal-scope output of a wallet-created transaction WITHOUT transparent inputs (change) needs mined_height + trusted <= target; an internal-scope output of a wallet shielding transaction takes its clock from the transparent inputs instead: max over the inputs' mined heights + untrusted <= target (no transaction is ever marked trusted). Asserted in the WEAKEST reading: only inputs of the note's own account whose mined height the wallet was told count (none known -> the change rule); the change of a propose_transfer that merely adds coins to shielded inputs is only required to be under the anchor. The strict reading (every wallet input, unknown height = unconfirmed, own transaction at the trusted depth too) is what the model considers selectable; a note selected under the weaker reading only is counted (selected-shielding-output-under-weaker-reading-only)");
+    ctx.assume("a mined wallet-created transaction: Chain::add_block_with_tx refuses (nothing is mined) a transaction one of whose Sapling nullifiers belongs to a note that is spent or absent on the current branch; MineExecuted additionally requires the transaction unexpired at the mining height, its anchor block still on the branch, and every coin it spends mined (or announceable as mined) and not spent by another mined transaction; only a transaction with a part a compact-block scan detects (a shielded wallet input or a shielded output to the wallet) is mined - the scanner records no other transaction, and set_transaction_status is not modelled; it is mined at most once; while un-mined again (rewind) it spends its inputs until its stored expiry height");
     ctx.assume("locks: an output is locked while lock_expiry_height >= target height; lock_inputs sets expiry = target + for_blocks for every selected input; unlock is owner-scoped; clear is per account (data_api::locking module docs)");
     ctx.assume("pending: a transaction stored by store_transactions_to_be_sent spends its inputs while its expiry height >= target height (expiry 0 = never expires); storing it releases the locks on its inputs (propose_transfer docs); the expiry is read back from the wallet's transactions table");
     ctx.assume("liveness is NOT asserted; it is counted on overwhelming evidence (all blocks scanned, no dust candidates, notes with untrusted depth, never locked, no spender ever seen cover `required` + 100000 + 5000*(notes+8)); C08 states safety only; insufficient-funds answers that the model or the wallet's own other answers contradict are COUNTED as observation:* labels and never reported");
@@ -3382,6 +3846,7 @@ fn main() {
     ctx.require_label_fraction("proposals", "proposal-ok", 0.40);
     ctx.require_label_fraction("proposals", "locked-note-exclusion-situation", 0.10);
     ctx.require_label_fraction("proposals", "under-confirmed-note", 0.20);
+    ctx.require_label_fraction("proposals", "executed-tx-mined", 0.04);
     // Regression input of the repaired finding `selected-orphaned-coinbase-coin` (see known_findings.json): every oracle runs on it.
     ctx.run_enum(
         "recorded-input-orphaned-coinbase",
@@ -3405,5 +3870,9 @@ fn main() {
     ctx.require_label_fraction("transparent", "coin-locked-by-other-owner", 0.06);
     ctx.require_label_fraction("transparent", "coinbase-coin-immature", 0.15);
     ctx.require_label_fraction("transparent", "spendable-coin-outside-requested-scope", 0.25);
+    ctx.require_label_fraction("transparent", "executed-tx-mined", 0.30);
+    ctx.require_label_fraction("transparent", "shielding-output-note-mined", 0.30);
+    ctx.require_label_fraction("transparent", "shielding-inputs-at-different-heights", 0.22);
+    ctx.require_label_fraction("transparent", "shielding-output-inside-confirmation-window-at-proposal", 0.08);
     ctx.finish();
 }
